@@ -17,11 +17,19 @@ import (
 type item struct {
 	id int
 	p  orb.Point
+	// kind and carrier: the concrete orb.Pointer stored in the tree for this record (carriers_test.go)
+	kind    int
+	carrier orb.Pointer
 }
 
 func (it *item) Point() orb.Point { return it.p }
 
-func (it *item) String() string { return fmt.Sprintf("#%d(%v,%v)", it.id, it.p[0], it.p[1]) }
+func (it *item) String() string {
+	if it.kind != kPtr {
+		return fmt.Sprintf("#%d(%v,%v)[%s]", it.id, it.p[0], it.p[1], kindNames[it.kind])
+	}
+	return fmt.Sprintf("#%d(%v,%v)", it.id, it.p[0], it.p[1])
+}
 
 // Op is one step of a history. Which fields are read depends on K.
 type Op struct {
@@ -50,6 +58,12 @@ type Op struct {
 	MaxK string `json:"maxk,omitempty"`
 	Max  gen.F  `json:"max,omitempty"`
 	Sel2 int    `json:"sel2,omitempty"`
+	// Ty: carrier kind (see carriers_test.go) of the pointer an add creates / a "fresh" or "ptrpoint" removal probes with.
+	Ty int `json:"ty,omitempty"`
+	// Spread (knn with a limit): pass the limit as `lims...` from a caller-owned slice with spare
+	// capacity, check that no element of its backing array changes, and repeat the call with the
+	// untouched slice.
+	Spread bool `json:"spread,omitempty"`
 	// Buf: 0 nil buffer, else a caller buffer of length = capacity = Buf-1 pre-filled with a foreign pointer.
 	Buf int `json:"buf,omitempty"`
 }
@@ -59,7 +73,9 @@ type Case struct {
 	Bound gen.B `json:"bound"`
 	// Pre: pointers that exist before the history starts (never stored yet); ids 0..len-1.
 	Pre []gen.P `json:"pre,omitempty"`
-	Ops []Op    `json:"ops"`
+	// PreTy: carrier kinds of the Pre pointers (default *item).
+	PreTy []int `json:"prety,omitempty"`
+	Ops   []Op  `json:"ops"`
 	// Battery: after the last step run the full query battery (used by the enumeration).
 	Battery bool `json:"battery,omitempty"`
 }
@@ -85,6 +101,11 @@ type env struct {
 	anyRemoved      bool
 	nontrivial      bool
 	cls             map[string]int64
+
+	pointIDs   map[orb.Point]int        // orb.Point carriers by value
+	refPoints  map[orb.Point]*orb.Point // shared backing points of the kRef carriers
+	limBack    [4]float64               // backing array of the caller-owned limit slice (class L4)
+	spreadNext bool                     // the next checkKNearest passes its limit as a window of limBack
 
 	// class B: the small unrelated tree the re-entrant filters query, and the
 	// first disagreement they saw
@@ -127,6 +148,9 @@ func exactCase(c Case) bool {
 		if !dyadicP(o.P) || !dyadicP(o.P2) || !dyadic(float64(o.Max)) {
 			return false
 		}
+		if o.K == "bulk" && o.Tgt == "chain" {
+			return false // halving coordinates down to 2^-990: not on the 2^-11 lattice
+		}
 	}
 	return true
 }
@@ -165,19 +189,19 @@ func (e *env) same(a, b float64) bool {
 func (e *env) filt(name string) quadtree.FilterFunc {
 	switch name {
 	case "even":
-		return func(p orb.Pointer) bool { return p.(*item).id%2 == 0 }
+		return func(p orb.Pointer) bool { return e.mustRec(p).id%2 == 0 }
 	case "odd":
-		return func(p orb.Pointer) bool { return p.(*item).id%2 != 0 }
+		return func(p orb.Pointer) bool { return e.mustRec(p).id%2 != 0 }
 	case "none":
-		return func(p orb.Pointer) bool { _ = p.(*item); return false }
+		return func(p orb.Pointer) bool { _ = e.mustRec(p); return false }
 	case "all":
-		return func(p orb.Pointer) bool { _ = p.(*item); return true }
+		return func(p orb.Pointer) bool { _ = e.mustRec(p); return true }
 	case "reeven":
-		return func(p orb.Pointer) bool { e.reenter(p.(*item), true); return p.(*item).id%2 == 0 }
+		return func(p orb.Pointer) bool { r := e.mustRec(p); e.reenter(r, true); return r.id%2 == 0 }
 	case "reodd":
-		return func(p orb.Pointer) bool { e.reenter(p.(*item), true); return p.(*item).id%2 != 0 }
+		return func(p orb.Pointer) bool { r := e.mustRec(p); e.reenter(r, true); return r.id%2 != 0 }
 	case "rmreeven": // used by Remove: only the unrelated tree is queried while a removal is searching
-		return func(p orb.Pointer) bool { e.reenter(p.(*item), false); return p.(*item).id%2 == 0 }
+		return func(p orb.Pointer) bool { r := e.mustRec(p); e.reenter(r, false); return r.id%2 == 0 }
 	}
 	return nil // "", "nil"
 }
@@ -248,28 +272,39 @@ func (e *env) takeReErr() error {
 
 // ---------------------------------------------------------------- bookkeeping
 
-func (e *env) newItem(p orb.Point) *item {
-	it := &item{id: len(e.created), p: p}
+// newItem creates a model record and its carrier of the given kind. An
+// orb.Point carrier is identified by its value: a second one at the same point
+// is the same pointer as far as anybody can tell, so it shares the record.
+func (e *env) newItem(p orb.Point, kind int) *item {
+	if kind < 0 || kind >= nKinds {
+		kind = kPtr
+	}
+	if kind == kPoint {
+		if id, ok := e.pointIDs[p]; ok {
+			return e.created[id]
+		}
+	}
+	it := &item{id: len(e.created), p: p, kind: kind}
+	var shared *orb.Point
+	if kind == kRef {
+		// L5: pointers at the same coordinates share one backing point
+		if sp, ok := e.refPoints[p]; ok {
+			shared = sp
+		} else {
+			cp := p
+			shared = &cp
+			e.refPoints[p] = shared
+		}
+	}
+	it.carrier = makeCarrier(it, kind, shared)
+	if kind == kPoint {
+		e.pointIDs[p] = it.id
+	}
 	e.created = append(e.created, it)
 	return it
 }
 
-func (e *env) asItem(p orb.Pointer) (*item, error) {
-	if p == nil {
-		return nil, errors.New("nil pointer returned inside a result")
-	}
-	it, ok := p.(*item)
-	if !ok || it == nil {
-		return nil, fmt.Errorf("returned %T %v which was never added", p, p)
-	}
-	if it == e.junk {
-		return nil, errors.New("returned the foreign pointer the caller's buffer was pre-filled with")
-	}
-	if it.id < 0 || it.id >= len(e.created) || e.created[it.id] != it {
-		return nil, fmt.Errorf("returned %v which was never added", it)
-	}
-	return it, nil
-}
+func (e *env) asItem(p orb.Pointer) (*item, error) { return e.rec(p) }
 
 func (e *env) counts(items []*item, keep func(*item) bool) []int32 {
 	cnt := make([]int32, len(e.created))
@@ -373,17 +408,36 @@ func (e *env) checkStructure(after fmt.Stringer) error {
 // point the degenerate box at that point returns exactly the pointers stored
 // there, and Find at that point returns one of them.
 func (e *env) checkPointBoxes(after fmt.Stringer) error {
+	probe := func(p orb.Point) error {
+		if err := e.checkInBound(orb.Bound{Min: p, Max: p}, "", nil); err != nil {
+			return fmt.Errorf("after %s: %v", after, err)
+		}
+		if err := e.checkFind(p, ""); err != nil {
+			return fmt.Errorf("after %s: %v", after, err)
+		}
+		return nil
+	}
+	if n := len(e.stored); n > 2000 {
+		// large trees (size ladder): an evenly strided sample, each probe is O(n) in the model
+		samples := 32
+		if n > 10000 {
+			samples = 6
+		}
+		for i := 0; i < samples; i++ {
+			if err := probe(e.stored[(i*n)/samples].p); err != nil {
+				return err
+			}
+		}
+		return probe(e.stored[n-1].p)
+	}
 	seen := map[orb.Point]bool{}
 	for _, m := range e.stored {
 		if seen[m.p] {
 			continue
 		}
 		seen[m.p] = true
-		if err := e.checkInBound(orb.Bound{Min: m.p, Max: m.p}, "", nil); err != nil {
-			return fmt.Errorf("after %s: %v", after, err)
-		}
-		if err := e.checkFind(m.p, ""); err != nil {
-			return fmt.Errorf("after %s: %v", after, err)
+		if err := probe(m.p); err != nil {
+			return err
 		}
 	}
 	return nil
@@ -451,9 +505,41 @@ func (e *env) checkFind(qp orb.Point, f string) error {
 }
 
 func (e *env) checkKNearest(qp orb.Point, k int, f string, hasMax bool, maxD float64, buf []orb.Pointer) error {
+	// class L4: the limit is a caller-owned slice. In spread mode it is a window
+	// (len 1, cap 2) of a longer backing array that is compared bit for bit after
+	// the call, and the untouched slice is then used for a second identical call.
+	spread := e.spreadNext && hasMax
+	e.spreadNext = false
 	var md []float64
 	if hasMax {
-		md = []float64{maxD}
+		if spread {
+			e.limBack = [4]float64{7.5, maxD, -3.25, 1e300}
+			md = e.limBack[1:2:3]
+		} else {
+			md = []float64{maxD}
+		}
+	}
+	limSnap := e.limBack
+	// SOUNDNESS: nothing in C11's statement promises that arguments are left alone,
+	// so a write into the caller's limit slice is only noted ("layout-note:"); it
+	// becomes a failure when it shows through a wrong RESULT: the second call
+	// below passes the very same, caller-untouched slice, and its answer is judged
+	// against the limit the caller wrote into it (the only value the caller ever
+	// put there).
+	limitNote := func() {
+		if !hasMax {
+			return
+		}
+		if math.Float64bits(md[0]) != math.Float64bits(maxD) {
+			e.bump("layout-note:knn changed the caller's maxDistance element")
+		}
+		if spread {
+			for i := range limSnap {
+				if i != 1 && math.Float64bits(limSnap[i]) != math.Float64bits(e.limBack[i]) {
+					e.bump("layout-note:knn wrote into the backing array around the caller's maxDistance slice")
+				}
+			}
+		}
 	}
 	var res []orb.Pointer
 	name := lazy(func() string {
@@ -470,6 +556,7 @@ func (e *env) checkKNearest(qp orb.Point, k int, f string, hasMax bool, maxD flo
 	if err := e.takeReErr(); err != nil {
 		return fmt.Errorf("%s: %v", name, err)
 	}
+	limitNote()
 	lim := maxD * maxD
 	var ds []float64
 	for _, m := range e.stored {
@@ -536,6 +623,32 @@ func (e *env) checkKNearest(qp orb.Point, k int, f string, hasMax bool, maxD flo
 			return fmt.Errorf("%s: result %d = %v at squared distance %v, but the %d-th smallest squared distance of the accepted stored pointers is %v", name, i, it, d, i+1, ds[i])
 		}
 		prev = d
+	}
+	if spread {
+		// the same, untouched argument slice again: the answer must be the same
+		first := make([]*item, len(res))
+		for i, r := range res {
+			first[i], _ = e.rec(r)
+		}
+		var res2 []orb.Pointer
+		if f == "" {
+			res2 = e.q.KNearest(nil, qp, k, md...)
+		} else {
+			res2 = e.q.KNearestMatching(nil, qp, k, e.filt(f), md...)
+		}
+		if err := e.takeReErr(); err != nil {
+			return fmt.Errorf("%s: %v", name, err)
+		}
+		limitNote()
+		if len(res2) != len(res) {
+			return fmt.Errorf("%s: a second call with the same caller-owned limit slice (never touched by the caller, who wrote %v into it; it now holds %v) returned %d pointers, the first call, which agrees with the model, %d", name, maxD, md[0], len(res2), len(res))
+		}
+		for i, r := range res2 {
+			if it, err := e.rec(r); err != nil || it != first[i] {
+				return fmt.Errorf("%s: a second call with the same caller-owned limit slice (the caller wrote %v into it; it now holds %v) returned %v at rank %d, the first call, which agrees with the model, %v", name, maxD, md[0], r, i, first[i])
+			}
+		}
+		e.bump("out:knn limit spread from a caller-owned slice, called twice")
 	}
 	switch {
 	case k == 0:
@@ -624,9 +737,9 @@ func (e *env) add(op Op) error {
 		it = e.created[op.Sel%len(e.created)]
 		e.bump("out:add same pointer again")
 	} else {
-		it = e.newItem(op.P.Pt())
+		it = e.newItem(op.P.Pt(), op.Ty)
 	}
-	err := e.q.Add(it)
+	err := e.q.Add(it.carrier)
 	if e.inside(it.p) {
 		if err != nil {
 			return fmt.Errorf("Add(%v) inside the bound %v..%v returned %v", it, e.b.Min, e.b.Max, err)
@@ -657,8 +770,9 @@ func (e *env) remove(op Op) error {
 	var match func(*item) bool
 	desc := ""
 	identity := func(it *item) {
-		arg = it
-		eq = func(p orb.Pointer) bool { return p == orb.Pointer(it) }
+		arg = it.carrier
+		// identity through the model record, never through == on interface values
+		eq = func(p orb.Pointer) bool { return e.mustRec(p) == it }
 		match = func(m *item) bool { return m == it }
 		desc = fmt.Sprintf("Remove(%v, identity)", it)
 	}
@@ -678,11 +792,16 @@ func (e *env) remove(op Op) error {
 	case "created":
 		identity(e.created[op.Sel%len(e.created)])
 	case "fresh":
-		identity(e.newItem(pt))
+		identity(e.newItem(pt, op.Ty))
 	case "ptrpoint":
-		arg = &item{id: -1, p: pt}
+		// a probe that is not stored, of any dynamic type (possibly the same uncomparable type as stored ones)
+		kind := op.Ty
+		if kind < 0 || kind >= nKinds {
+			kind = kPtr
+		}
+		arg = makeCarrier(&item{id: -1, p: pt, kind: kind}, kind, nil)
 		match = func(m *item) bool { return m.p == pt }
-		desc = fmt.Sprintf("Remove(new pointer at %v, nil)", pt)
+		desc = fmt.Sprintf("Remove(new %s at %v, nil)", kindNames[kind], pt)
 	case "filter":
 		arg = pt
 		eq = e.filt(op.F)
@@ -709,7 +828,7 @@ func (e *env) remove(op Op) error {
 	if e.w.ok && want {
 		interior = map[*item]bool{}
 		for _, n := range e.w.walk(e.q, e.b) {
-			if it, ok := n.val.(*item); ok && it != nil {
+			if it, err := e.rec(n.val); err == nil {
 				if n.hasChildren {
 					interior[it] = true
 				}
@@ -805,6 +924,9 @@ func (e *env) step(i int, op Op) error {
 	case "rm":
 		mutating = true
 		err = e.remove(op)
+	case "bulk":
+		mutating = true
+		err = e.bulk(op)
 	case "noise":
 		e.noise(op.Sel)
 		e.bump("out:noise burst")
@@ -831,6 +953,7 @@ func (e *env) step(i int, op Op) error {
 				}
 			}
 		}
+		e.spreadNext = op.Spread
 		err = e.checkKNearest(qp, k, op.F, hasMax, maxD, e.buffer(op.Buf))
 	case "inb":
 		var box orb.Bound
@@ -852,6 +975,9 @@ func (e *env) step(i int, op Op) error {
 	}
 	if err != nil {
 		return fmt.Errorf("step %d: %v", i, err)
+	}
+	if !mutating && len(e.stored) > 2000 && i%8 != 0 {
+		return nil // size ladder: the O(n) re-listing after a pure query only every 8th step
 	}
 	if !mutating {
 		// a query must not change the contents either
@@ -930,6 +1056,7 @@ func (e *env) battery() error {
 					case 2:
 						bufN = n + 4
 					}
+					e.spreadNext = (k+li+fi)%4 == 0
 					if err := e.checkKNearest(qp, k, f, l.has, l.d, e.buffer(bufN)); err != nil {
 						return err
 					}
@@ -975,10 +1102,17 @@ func newEnv(c Case) *env {
 		junk:  &item{id: -2},
 		w:     theWalker,
 		cls:   map[string]int64{},
+
+		pointIDs:  map[orb.Point]int{},
+		refPoints: map[orb.Point]*orb.Point{},
 	}
 	e.q = quadtree.New(e.b)
-	for _, p := range c.Pre {
-		e.newItem(p.Pt())
+	for i, p := range c.Pre {
+		kind := kPtr
+		if i < len(c.PreTy) {
+			kind = c.PreTy[i]
+		}
+		e.newItem(p.Pt(), kind)
 	}
 	return e
 }
@@ -1105,4 +1239,64 @@ func (e *env) noise(seed int) {
 			e.q.InBound(buf, orb.Bound{Min: orb.Point{e.b.Max[0], e.b.Min[1]}, Max: e.b.Max})
 		}
 	}
+}
+
+// ---------------------------------------------------------------- bulk loading (class L1)
+
+// bulkPoint is point i of n of a structured pattern inside the bound (the
+// patterns assume the ladder bound [0,1024]^2; coordinates are multiples of 1/2,
+// so the whole case stays in the exact class, except "chain").
+func bulkPoint(pattern string, i, n int, seed uint64, at orb.Point, b orb.Bound) orb.Point {
+	w, h := b.Max[0]-b.Min[0], b.Max[1]-b.Min[1]
+	switch pattern {
+	case "coincident": // one point n times: a chain of depth n
+		return at
+	case "twins": // n/2 distinct lattice points, each twice
+		i /= 2
+		fallthrough
+	case "grid": // row-major lattice, side = ceil(sqrt(n)) <= 1024 + 1
+		side := 1
+		for side*side < n {
+			side++
+		}
+		if side > 2049 {
+			side = 2049
+		}
+		return orb.Point{b.Min[0] + w*float64(i%side)/2048, b.Min[1] + h*float64((i/side)%2049)/2048}
+	case "chain": // halving distances towards the min corner, then repeating: deep one-sided descent with distinct points
+		j := i % 1000
+		return orb.Point{b.Min[0] + math.Ldexp(w, -j), b.Min[1] + math.Ldexp(h, -j)}
+	case "diagonal": // all on the main diagonal (midline crossings at every level)
+		return orb.Point{b.Min[0] + w*float64(i%2049)/2048, b.Min[1] + h*float64(i%2049)/2048}
+	}
+	// "scatter": a fixed pseudo-random sequence on the half-unit lattice
+	x := seed + uint64(i)*0x9e3779b97f4a7c15
+	x ^= x >> 29
+	x *= 0xbf58476d1ce4e5b9
+	x ^= x >> 32
+	return orb.Point{b.Min[0] + w*float64(x%2049)/2048, b.Min[1] + h*float64((x>>20)%2049)/2048}
+}
+
+// bulk adds op.N pointers of pattern op.Tgt (carrier kind op.Ty, or rotating
+// through all kinds when op.Ty < 0) without the per-step sweeps, then checks the
+// contents once: O(n) in the model.
+func (e *env) bulk(op Op) error {
+	n := op.N
+	seed := uint64(op.Sel)
+	for i := 0; i < n; i++ {
+		kind := op.Ty
+		if kind < 0 {
+			kind = i % nKinds
+		}
+		it := e.newItem(bulkPoint(op.Tgt, i, n, seed, op.P.Pt(), e.b), kind)
+		if err := e.q.Add(it.carrier); err != nil {
+			return fmt.Errorf("bulk %s: Add(%v) (pointer %d of %d) returned %v", op.Tgt, it, i, n, err)
+		}
+		e.stored = append(e.stored, it)
+	}
+	if n > 0 {
+		e.everAdded = true
+	}
+	e.bump("out:bulk load")
+	return e.checkContents(lazy(func() string { return fmt.Sprintf("bulk load of %d pointers (%s)", n, op.Tgt) }))
 }
